@@ -13,8 +13,6 @@ import (
 	"strings"
 	"sync/atomic"
 	"time"
-
-	"github.com/openacid/slim/xsimrt"
 )
 
 // harness run|replay|merge — see /verif/check.
@@ -49,9 +47,13 @@ func main() {
 }
 
 func execute(scn *Scenario) *RunResult {
-	xsimrt.ResetOnceTable()
+	ambReset(scn.RunSeed)
 	freshBroken = ""
 	res := executeInner(scn)
+	if amb.spawned > 0 && res.Counters != nil {
+		res.Counters["library_goroutines_started"] += amb.spawned
+		res.Counters["library_goroutine_switches_outside_sim"] += amb.switches
+	}
 	if freshBroken != "" && res.Viol == nil {
 		if scn.C05 != nil {
 			res.Skipped = ""
@@ -195,6 +197,7 @@ func cmdRun(args []string) {
 		runtime.GOMAXPROCS(1)
 		spinTransport = true
 	}
+	ambSetLane(*lane)
 	if gcOwned {
 		// GC is taken out of the picture while a run executes (sync.Pool and
 		// finalizer behaviour must not depend on when the collector happens to
@@ -359,6 +362,7 @@ func cmdReplay(args []string) {
 		runtime.GOMAXPROCS(1)
 		spinTransport = true
 	}
+	ambSetLane(scn.Lane)
 	startWatchdog(180 * time.Second)
 	tStart := time.Now()
 	for i := 0; i < *tries; i++ {
@@ -454,6 +458,7 @@ func cmdDeterminism(args []string) {
 		debug.SetGCPercent(-1)
 		debug.SetMemoryLimit(3 << 30)
 	}
+	ambSetLane(lane)
 	startWatchdog(180 * time.Second)
 	bad, replayed := 0, 0
 	for run := 0; run < *runs; run++ {
